@@ -179,7 +179,9 @@ def u_fit_gof(root):
     eng = mk_engine(root, schema)
     isdiag = z3.Bool("total_cov_mat_is_diagonal")
     mk(eng, "FitBase", "total_cov_mat", "getter", result=lambda vw: VOpaque("total_cov_mat"))
-    eng.lib["is_diagonal"] = lambda e, st, a, kw, n: VBool(isdiag)
+    for other in ("data_cov_mat", "model_cov_mat"):          # (other matrices a changed body might test instead: their diagonality is a different fact)
+        mk(eng, "FitBase", other, "getter", result=lambda vw, other=other: VOpaque(other))
+    eng.lib["is_diagonal"] = lambda e, st, a, kw, n: VBool(isdiag if getattr(a[0], "tag", None) == "total_cov_mat" else z3.Bool(str(getattr(a[0], "tag", "matrix")) + "_is_diagonal"))
     inline(eng, "CostFunction", "arg_names")
     mk(eng, "Nexus", "get", result=lambda vw: VNode(vw.args["node_name"].s, vw.self.e))
     vals = {nm: VNum(z3.Real("node_" + nm)) for nm in ("data", "model", "total_cov_mat_qr", "total_error", "parameter_values", "parameter_constraints", "total_cov_mat_log_determinant", "total_error_squared_log_sum")}
